@@ -110,6 +110,17 @@ fn map_case(r: &mut Rng, ma: &Model, mb: &Model, mc: &Model, o: &mut CaseOut, p:
     o.check(a.union(&a) == a, "AdjacencyMap::union-not-idempotent", || "A u A != A".into());
     o.check(u.union(&c) == a.union(&b.union(&c)), "AdjacencyMap::union-not-associative", || "(A u B) u C != A u (B u C)".into());
     observe(&u.union(&c), &want.union(mc), o, "AdjacencyMap::union3", false);
+    // split A at a vertex k (both parts keep k) and glue the parts back
+    {
+        let vs = ma.vert_list();
+        let k = *r.pick(&vs);
+        let lower = ma.induced(|v| v <= k);
+        let upper = ma.induced(|v| v >= k);
+        let (dl, du) = (a.filter_vertices(|v| v <= k), a.filter_vertices(|v| v >= k));
+        let want = lower.union(&upper);
+        observe(&dl.union(&du), &want, o, "AdjacencyMap::union(parts split at a vertex)", true);
+        observe(&du.union(&dl), &want, o, "AdjacencyMap::union(parts split at a vertex, swapped)", true);
+    }
     // filter_vertices
     let vs = ma.vert_list();
     let k = *r.pick(&vs);
@@ -176,6 +187,13 @@ pub fn case(idx: u64, seed: u64, p: &Params, o: &mut CaseOut) {
             }
             if r.chance(0.5) {
                 mc = gen::sparsify(&mut r, &mc);
+            }
+            if r.chance(0.12) {
+                ma = gen::with_max_id(&ma);
+                if r.chance(0.5) {
+                    mb = gen::with_max_id(&mb);
+                }
+                o.bump("vertex_id_usize::MAX");
             }
             map_case(&mut r, &ma, &mb, &mc, o, p, idx);
         }
